@@ -1278,7 +1278,9 @@ def comprehension(ex, e, kind):
         ckey = None
     cache = ex.eng.__dict__.setdefault('comp_cache', {})
     if ckey is not None and ckey in cache:
-        return cache[ckey][0](seq)
+        res = cache[ckey][0](seq)
+        _filter_fact(ex, e, gen, elt, res)
+        return res
     idx = next(_cnt)
     f = z3.RecFunction('comp%d_%s' % (idx, ex.fname.replace('.', '_').replace(':', '_')), SeqVal, SeqVal)
     if ckey is not None:
@@ -1306,7 +1308,29 @@ def comprehension(ex, e, kind):
     init = f(z3.SubSeq(q, 0, n - 1), *pconsts)
     body = z3.If(n == 0, z3.Empty(SeqVal), z3.If(cond, z3.Concat(init, z3.Unit(el)), init))
     z3.RecAddDefinition(f, [q] + pconsts, body)
-    return f(seq, *flat)
+    res = f(seq, *flat)
+    _filter_fact(ex, e, gen, elt, res)
+    return res
+
+
+def _filter_fact(ex, e, gen, elt, res):
+    """a filter keeps elements: every element of [x for x in xs if C] satisfies C (a property of the
+    comprehension that needs induction to derive, given as a fact where the comprehension is evaluated)"""
+    from .symex import Exec
+    if not (gen.ifs and isinstance(gen.target, ast.Name) and isinstance(elt, ast.Name) and elt.id == gen.target.id):
+        return
+    if getattr(ex, 'no_assume', False) or ex.spec_mode:
+        return
+    ii = fresh('ci', vl.Int)
+    sub2 = Exec(ex.eng, ex.module, None, spec_mode=True)
+    sub2.no_assume = True
+    sub2.fname = ex.fname
+    sub2.env = dict(ex.env)
+    sub2.ghost = dict(ex.ghost)
+    sub2.old_env = getattr(ex, 'old_env', {})
+    sub2.bind_target(gen.target, V(res[ii]), e)
+    c_at = z3.And(*[as_bool(sub2.ev(c)) for c in gen.ifs])
+    ex.assume(z3.ForAll([ii], z3.Implies(z3.And(ii >= 0, ii < z3.Length(res)), c_at)))
 
 
 def nested_set_comp(ex, e):
